@@ -221,6 +221,14 @@ def run(c, chk):
         chk.ok('R19.6', 'writers of cfg->pff', 'cfg_set_print_filter_func() only')
 
     indent_writer(c, chk)
+    chk.rule('R19.8', 'a print callback registered by name lands on the option the printer will visit: the name is resolved by cfg_getopt(), not by the schema-template walker')
+    spf = c.need('cfg_set_print_func')
+    cal = set(x.callee_name() for x in c.deep_calls(spf))
+    if 'cfg_getopt' in cal and 'cfg_getopt_array' not in cal:
+        chk.ok('R19.8', 'cfg_set_print_func', 'resolves through cfg_getopt() and sets the callback with cfg_opt_set_print_func()')
+    else:
+        chk.fail('R19.8', 'print-func-resolver', c.where(spf), 'cfg_set_print_func() resolves the option name through %s: for a path through a multi section the callback '
+                 'lands on the section template (or nowhere), not on the option of the existing section that cfg_print() visits' % sorted(x for x in cal if x and x.startswith('cfg_getopt')))
 
     # ---- R19.3 / R19.4 / R19.5 -------------------------------------------------------------------
     ex3 = sym.Explorer(c.modules, max_visits=4 if chk.tier == 'thorough' else 3, mod_sets=c.mod_sets, max_paths=200000)
